@@ -146,6 +146,8 @@ impl FreezerFiles {
         }
 
         self.head.write(data)?;
+        #[cfg(ckb_verif)]
+        crate::freezer::verif_point("append-index", number);
         self.write_index(self.head_id, self.head.bytes)?;
         self.number.fetch_add(1, Ordering::SeqCst);
 
